@@ -128,26 +128,21 @@ Print Assumptions C15_selected_column_detected.
 (* (4') multi-flip, one row: ANY set of flips inside one payload row i0 whose
    restriction to the selected columns is non-empty is rejected when chi_i0 <> 0
    (no zero divisors). *)
+
+(* (4'') ... and the same for a row of the 256-row check batch *)
 Theorem C15_selected_row_detected :
   forall g0 g1 chi_of bl b0 b1 seed pos delta, (delta < 2^128)%N ->
   forall tr res pos', receiver_run g0 g1 chi_of bl b0 b1 seed pos = (tr, res, pos') ->
-  forall E0 i0,
+  (forall E0 i0,
     i0 < length bl -> (forall j i, E0 j i = true -> i = i0) ->
     N.land (err_row E0 i0) delta <> 0%N -> prg_label chi_of seed i0 <> 0%N ->
-    sender_run (sender_streams g0 g1 delta) delta chi_of (tamper_bits E0 noerr tr) (length bl) pos = Reject.
-Proof. exact selected_row_detected. Qed.
-Print Assumptions C15_selected_row_detected.
-
-(* (4'') the same for a row of the 256-row check batch *)
-Theorem C15_selected_check_row_detected :
-  forall g0 g1 chi_of bl b0 b1 seed pos delta, (delta < 2^128)%N ->
-  forall tr res pos', receiver_run g0 g1 chi_of bl b0 b1 seed pos = (tr, res, pos') ->
-  forall E1 i0,
+    sender_run (sender_streams g0 g1 delta) delta chi_of (tamper_bits E0 noerr tr) (length bl) pos = Reject) /\
+  (forall E1 i0,
     i0 < checkRows -> (forall j i, E1 j i = true -> i = i0) ->
     N.land (err_row E1 i0) delta <> 0%N -> prg_label chi_of seed (length bl + i0) <> 0%N ->
-    sender_run (sender_streams g0 g1 delta) delta chi_of (tamper_bits noerr E1 tr) (length bl) pos = Reject.
-Proof. exact selected_check_row_detected. Qed.
-Print Assumptions C15_selected_check_row_detected.
+    sender_run (sender_streams g0 g1 delta) delta chi_of (tamper_bits noerr E1 tr) (length bl) pos = Reject).
+Proof. exact selected_rows_detected. Qed.
+Print Assumptions C15_selected_row_detected.
 
 (* (4''') multi-flip, one column: a selected column j0 flipped in the payload
    rows of an arbitrary set R0 and the check rows of an arbitrary set R1 is
@@ -197,6 +192,130 @@ Theorem C15_never_silent_refuted :
     corr_holds delta out res bl = false.
 Proof. exact never_silent_refuted. Qed.
 Print Assumptions C15_never_silent_refuted.
+
+(* ---- coefficient positions and multi-flip deviations ---------------------- *)
+
+(* The chi coefficients are ONE stream indexed by position: payload row i
+   uses position coeff_idx n 0 i = i, check row k uses coeff_idx n 1 k = n + k.
+   Distinct matrix positions (rows the sender uses) get distinct stream
+   positions - the blocks of 1024 payload rows and the 256 check rows continue
+   the stream, nothing restarts. *)
+Theorem C15_coeff_positions_distinct :
+  forall n b1 r1 b2 r2,
+    b1 <= 1 -> b2 <= 1 -> (b1 = 0 -> r1 < n) -> (b2 = 0 -> r2 < n) ->
+    coeff_idx n b1 r1 = coeff_idx n b2 r2 -> b1 = b2 /\ r1 = r2.
+Proof. exact coeff_idx_injective. Qed.
+Print Assumptions C15_coeff_positions_distinct.
+
+(* ... and these are the positions the sender's test reads (every chi, Delta,
+   rows q / qc, n): the 1024-blocked loop plus the check-batch call compute
+   sum_{i<n} chi(i)*q_i xor sum_{k<256} chi(n+k)*qc_k xor x*Delta and compare it
+   with (t0, t1).  (The receiver side uses the same positions: part of
+   C15_honest_accepts / C15_accept_iff.) *)
+Theorem C15_sender_check_positions :
+  forall chi delta (q qc : nat -> N) n x t0 t1,
+    sender_check chi delta (map q (seq 0 n)) (map qc (seq 0 checkRows)) x t0 t1 = true <->
+    split128 (N.lxor (N.lxor (isum chi q (coeff_idx n 0 0) 0 n) (isum chi qc (coeff_idx n 1 0) 0 checkRows))
+                     (clmul x delta)) = (t0, t1).
+Proof. exact sender_check_positions. Qed.
+Print Assumptions C15_sender_check_positions.
+
+(* ANY set of flipped positions (both batches, any rows and columns), response
+   untouched: a non-zero syndrome sum_p chi(idx p) * (e_p & Delta) is rejected. *)
+Theorem C15_multi_flip_detected :
+  forall g0 g1 chi_of bl b0 b1 seed pos delta, (delta < 2^128)%N ->
+  forall tr res pos', receiver_run g0 g1 chi_of bl b0 b1 seed pos = (tr, res, pos') ->
+  forall E0 E1,
+    syndrome2 (prg_label chi_of seed) delta E0 E1 (length bl) <> 0%N ->
+    sender_run (sender_streams g0 g1 delta) delta chi_of (tamper_bits E0 E1 tr) (length bl) pos = Reject.
+Proof. exact multi_flip_detected. Qed.
+Print Assumptions C15_multi_flip_detected.
+
+(* Symbolic model: with the coefficients as independent indeterminates
+   (generic point Y_p = X^(128 p), distinct stream positions -> distinct
+   indeterminates) the syndrome of ANY error pattern vanishes iff no row the
+   sender uses is inconsistent: every multi-flip deviation that leaves an
+   inconsistent state is detected; acceptance of an inconsistent state needs a
+   non-trivial relation among the actual coefficients (C15_tamper_sound). *)
+Theorem C15_symbolic_multi_flip_detected :
+  forall delta E0 E1 n,
+    syndrome2 gchi delta E0 E1 n = 0%N <->
+    (forall i, i < n -> N.land (err_row E0 i) delta = 0%N) /\
+    (forall k, k < checkRows -> N.land (err_row E1 k) delta = 0%N).
+Proof. exact syndrome2_generic. Qed.
+Print Assumptions C15_symbolic_multi_flip_detected.
+
+(* two flips in one selected column at payload rows a, b: accepted IFF the two
+   stream positions carry the same coefficient *)
+Theorem C15_pair_payload_accept_iff :
+  forall g0 g1 chi_of bl b0 b1 seed pos delta, (delta < 2^128)%N ->
+  forall tr res pos', receiver_run g0 g1 chi_of bl b0 b1 seed pos = (tr, res, pos') ->
+  forall j0 a b out,
+    j0 < K -> N.testbit delta (N.of_nat j0) = true -> a < length bl -> b < length bl ->
+    (sender_run (sender_streams g0 g1 delta) delta chi_of
+                (tamper_bits (colflips j0 (pairset a b)) (colflips j0 nowhere) tr) (length bl) pos = Accept out <->
+     out = map (qrow delta (t_ g0 pos) (b_ bl) (err_row (colflips j0 (pairset a b)))) (seq 0 (length bl)) /\
+     prg_label chi_of seed (coeff_idx (length bl) 0 a) = prg_label chi_of seed (coeff_idx (length bl) 0 b)).
+Proof. exact pair_payload_accept_iff. Qed.
+Print Assumptions C15_pair_payload_accept_iff.
+
+(* the same (row, column) flipped in the payload batch (row a) and in the check
+   batch (row k): accepted IFF chi(a) = chi(n + k) *)
+Theorem C15_pair_payload_check_accept_iff :
+  forall g0 g1 chi_of bl b0 b1 seed pos delta, (delta < 2^128)%N ->
+  forall tr res pos', receiver_run g0 g1 chi_of bl b0 b1 seed pos = (tr, res, pos') ->
+  forall j0 a k out,
+    j0 < K -> N.testbit delta (N.of_nat j0) = true -> a < length bl -> k < checkRows ->
+    (sender_run (sender_streams g0 g1 delta) delta chi_of
+                (tamper_bits (colflips j0 (fun i => Nat.eqb i a)) (colflips j0 (fun i => Nat.eqb i k)) tr) (length bl) pos = Accept out <->
+     out = map (qrow delta (t_ g0 pos) (b_ bl) (err_row (colflips j0 (fun i => Nat.eqb i a)))) (seq 0 (length bl)) /\
+     prg_label chi_of seed (coeff_idx (length bl) 0 a) = prg_label chi_of seed (coeff_idx (length bl) 1 k)).
+Proof. exact pair_payload_check_accept_iff. Qed.
+Print Assumptions C15_pair_payload_check_accept_iff.
+
+(* hence, when the coefficients at the two (distinct) stream positions differ
+   - hypothesis made visible; AES-CTR yields pairwise different blocks, the
+   harness checks it for every observed seed - both pair shapes are rejected *)
+
+
+Theorem C15_pair_flip_detected :
+  forall g0 g1 chi_of bl b0 b1 seed pos delta, (delta < 2^128)%N ->
+  forall tr res pos', receiver_run g0 g1 chi_of bl b0 b1 seed pos = (tr, res, pos') ->
+  forall j0, j0 < K -> N.testbit delta (N.of_nat j0) = true ->
+  (forall a b, a < length bl -> b < length bl ->
+    prg_label chi_of seed (coeff_idx (length bl) 0 a) <> prg_label chi_of seed (coeff_idx (length bl) 0 b) ->
+    sender_run (sender_streams g0 g1 delta) delta chi_of
+               (tamper_bits (colflips j0 (pairset a b)) (colflips j0 nowhere) tr) (length bl) pos = Reject) /\
+  (forall a k, a < length bl -> k < checkRows ->
+    prg_label chi_of seed (coeff_idx (length bl) 0 a) <> prg_label chi_of seed (coeff_idx (length bl) 1 k) ->
+    sender_run (sender_streams g0 g1 delta) delta chi_of
+               (tamper_bits (colflips j0 (fun i => Nat.eqb i a)) (colflips j0 (fun i => Nat.eqb i k)) tr) (length bl) pos = Reject).
+Proof. exact pair_flip_detected. Qed.
+Print Assumptions C15_pair_flip_detected.
+
+(* refutation for a stream that REPEATS a coefficient (e.g. one restarting at
+   counter 0 for every 1024-row block or for the check batch): the two flips
+   cancel, the sender accepts, output a violates the correlation *)
+
+
+Theorem C15_repeated_coefficient_refuted :
+  forall g0 g1 chi_of bl b0 b1 seed pos delta, (delta < 2^128)%N ->
+  forall tr res pos', receiver_run g0 g1 chi_of bl b0 b1 seed pos = (tr, res, pos') ->
+  forall j0, j0 < K -> N.testbit delta (N.of_nat j0) = true ->
+  (forall a k, a < length bl -> k < checkRows ->
+    prg_label chi_of seed (coeff_idx (length bl) 0 a) = prg_label chi_of seed (coeff_idx (length bl) 1 k) ->
+    exists out,
+      sender_run (sender_streams g0 g1 delta) delta chi_of
+                 (tamper_bits (colflips j0 (fun i => Nat.eqb i a)) (colflips j0 (fun i => Nat.eqb i k)) tr) (length bl) pos = Accept out /\
+      corr_holds delta out res bl = false) /\
+  (forall a b, a < length bl -> b < length bl -> a <> b ->
+    prg_label chi_of seed (coeff_idx (length bl) 0 a) = prg_label chi_of seed (coeff_idx (length bl) 0 b) ->
+    exists out,
+      sender_run (sender_streams g0 g1 delta) delta chi_of
+                 (tamper_bits (colflips j0 (pairset a b)) (colflips j0 nowhere) tr) (length bl) pos = Accept out /\
+      corr_holds delta out res bl = false).
+Proof. exact repeated_coefficient_refuted. Qed.
+Print Assumptions C15_repeated_coefficient_refuted.
 
 (* the model's constants are those of ot/iknp.go as regenerated this run *)
 Theorem C15_consts :
